@@ -787,7 +787,7 @@ fn independent_derived(w: &mut World, c: &KCase, i: u64) -> Option<Descriptor<Pu
 
 fn catch<T>(f: impl FnOnce() -> T) -> Result<T, String> { catch_unwind(AssertUnwindSafe(f)).map_err(|_| "PANIC".to_string()) }
 
-fn emit_keys(out: &mut Out, w: &mut World, c: &KCase, indices: &[u64], directed: bool) {
+fn emit_keys(out: &mut Out, w: &mut World, c: &KCase, indices: &[u64]) {
     let d = match build_dpk(w, c) { Ok(d) => d, Err(_) => { out.count("kdesc rejected-by-constructor"); return; } };
     let wire = c.wire();
     out.count(&format!("kdesc type {}", c.shape.ty()));
@@ -848,13 +848,9 @@ fn emit_keys(out: &mut Out, w: &mut World, c: &KCase, indices: &[u64], directed:
     let ans = match &r { Err(p) => format!("err:{}", p), Ok(Ok(v)) => format!("ok:{}", v.iter().map(|x| table(&c.shape, x, &mut |k| render_dpk(w, k))).collect::<Vec<_>>().join("|")),
         Ok(Err(miniscript::Error::MultipathDescLenMismatch)) => "err:LenMismatch".into(), Ok(Err(e)) => format!("err:{}", e.to_string().replace(' ', "_")) };
     out.line(&format!("C split {}", wire), &ans);
-    // manual selection: arity must be uniform; descriptor j = every multipath key at alternative j
+    // manual selection: arity must be uniform (any mismatch, whichever key comes first, must be
+    // rejected); descriptor j = every multipath key at alternative j
     let arities: Vec<usize> = c.shape.atoms_pre().iter().filter_map(|a| c.keys.get(a)).filter_map(|k| if let SKey::M { paths, .. } = k { Some(paths.len()) } else { None }).collect();
-    // known defect class (see known_findings): the first multipath key has the fewest alternatives
-    // and a later one has more -> the extra alternatives are dropped silently.  Judged on the
-    // directed cases only; random instances are compared with the model (C split) but not judged.
-    let trunc_class = !arities.is_empty() && arities.iter().all(|a| *a >= arities[0]) && arities.iter().any(|a| *a > arities[0]);
-    if trunc_class && !directed { out.count("split truncation-class (not judged)"); return; }
     let v: Result<(), String> = (|| {
         let res = match &r { Err(_) => return Err("panic".into()), Ok(x) => x };
         if arities.is_empty() {
@@ -1059,7 +1055,7 @@ fn part_keys(out: &mut Out, thorough: bool, rng: &mut Rng, w: &mut World) -> u64
             let c = KCase { shape, keys };
             n_cases += 1;
             let idx: Vec<u64> = if round == 0 { indices.clone() } else { vec![*rng.pick(&indices), rng.below(1000) as u64] };
-            emit_keys(out, w, &c, &idx, false);
+            emit_keys(out, w, &c, &idx);
             // find_derivation_index_for_spk
             let finds: Vec<(u64, u64, String)> = vec![
                 (0, 6, "3".into()), (0, 6, "0".into()), (0, 6, "5".into()), (0, 6, "6".into()), (2, 6, "1".into()), (0, 6, "none".into()),
@@ -1094,7 +1090,7 @@ fn part_keys(out: &mut Out, thorough: bool, rng: &mut Rng, w: &mut World) -> u64
     }
     for c in directed {
         n_cases += 1;
-        emit_keys(out, w, &c, &[0, 5, 0x8000_0000], true);
+        emit_keys(out, w, &c, &[0, 5, 0x8000_0000]);
         emit_find(out, w, &c, 0, 4, "2");
     }
     n_cases
